@@ -26,6 +26,7 @@ import (
 	"sort"
 	"strings"
 	"sync"
+	"syscall"
 	"time"
 )
 
@@ -149,7 +150,15 @@ func mustDriver(name string) Driver {
 
 func worker(d Driver) {
 	in := bufio.NewReaderSize(os.Stdin, 1<<20)
-	w := bufio.NewWriter(os.Stdout)
+	// the library under test prints to stdout on some error paths: keep the protocol on a private
+	// descriptor and point fd 1 at stderr
+	protoFd, err := syscall.Dup(1)
+	if err != nil {
+		fmt.Fprintln(os.Stderr, "harness: dup:", err)
+		os.Exit(2)
+	}
+	_ = syscall.Dup2(2, 1)
+	w := bufio.NewWriter(os.NewFile(uintptr(protoFd), "proto"))
 	for {
 		line, err := in.ReadBytes('\n')
 		if len(line) > 1 {
@@ -176,6 +185,8 @@ type child struct {
 	stderr *tailBuf
 }
 
+// tailBuf keeps the most recent 256 KiB of a worker's stderr (a race report or a fatal error
+// with its goroutine dump is the last thing a dying worker writes).
 type tailBuf struct {
 	mu  sync.Mutex
 	buf []byte
@@ -185,8 +196,8 @@ func (t *tailBuf) Write(p []byte) (int, error) {
 	t.mu.Lock()
 	defer t.mu.Unlock()
 	t.buf = append(t.buf, p...)
-	if len(t.buf) > 1<<16 {
-		t.buf = t.buf[len(t.buf)-(1<<16):]
+	if len(t.buf) > 1<<19 {
+		t.buf = append([]byte(nil), t.buf[len(t.buf)-(1<<18):]...)
 	}
 	return len(p), nil
 }
@@ -229,10 +240,10 @@ func (c *child) kill() {
 func crashHead(s string) string {
 	lines := strings.Split(s, "\n")
 	start := 0
+	// the last marker wins: earlier output is library chatter
 	for i, l := range lines {
-		if strings.HasPrefix(l, "fatal error:") || strings.HasPrefix(l, "panic:") || strings.HasPrefix(l, "runtime:") || strings.Contains(l, "DATA RACE") {
+		if strings.HasPrefix(l, "fatal error:") || strings.HasPrefix(l, "panic:") || strings.HasPrefix(l, "runtime: goroutine stack exceeds") || strings.Contains(l, "WARNING: DATA RACE") {
 			start = i
-			break
 		}
 	}
 	end := start + 60
